@@ -932,7 +932,7 @@ class CorruptFamily(Family):
             bad[o + n:o + n + 4 + ln] = seg
             script.append("blob %d %s" % (bid, hx(bytes(bad))))
             script.append("tool.verify %d" % bid)
-            script.append("rv.read %d verify=1" % bid)
+            script.append("rv.read %d verify=1%s" % (bid, rng.pick(["", "", " madv=0", " madv=1"])))
             before = sum(counts[:tgt]) if tgt < len(frames) else 0
             if tgt < len(frames) and counts[tgt] > 0 and before < len(keys):
                 script.append("rv.read %d verify=1 get=%s" % (bid, hx(keys[before])))
@@ -1276,6 +1276,7 @@ reg("C13", ["tp", "pooled"], "mtbl/threadpool.c compiled unmodified into harness
     "pool sizes 1..6, 0..12 jobs, ordered and unordered delivery, random schedules with spurious wake-ups; after every turn the visible state (count, idle list, result queue, outstanding counter, finished flag, per-thread running/cb/res/rq, delivered results) and the sets of enabled and sleeping threads are compared with the machine; "
     "oracle on the real run: count <= max, no result twice, ordered results in order, all results at the end, no deadlock, no mutex misuse; plus writers and sorters with real pools (0..8 threads) under the OS scheduler against the sequential model (byte-identical files, same entries); non-trivial = the run reached the end (tp) / >= 2 blocks or spills (pooled)",
     ["pthread mutex/condition semantics incl. spurious wake-ups (the scheduler implements them); a critical section is one atomic step (rests on data-race freedom, C14)",
+     "pooled writer = sequential writer for every interleaving of adds and in-order deliveries (C13_writer), pooled sorter output for every completion order of the chunk jobs (C13_sorter): the two theorems take from the machine that results are delivered in dispatch order / each exactly once / all before the join (C13_order, C13_complete) and from C14 that caller and handler touch disjoint fields",
      "termination is proved through a progress measure for every schedule with finitely many spurious wake-ups (C13_progress, C13_steps_bounded, C13_no_hang, C13_can_finish); that the OS keeps scheduling some runnable thread is assumed",
      "thread creation does not fail"], variants=["sched", "A"], max_s={"quick": 100, "thorough": 1500})
 
